@@ -139,6 +139,8 @@ type TreeGen struct {
 	ReadOnlyNodes  bool // SetReadOnly(true) on a random sixth of the nodes (stacks and Conditions) after assembly: neutral for every query
 	RejectValidity bool // a rejecting validity closure on a random eighth of the NESTED stack nodes (never the root)
 	OddEncap       bool // some nodes get an over-long (3-string) encapsulation pattern in front of a usable one: accepted and stored, never rendered - only for checks without a renderer model
+	NoOpConds      bool // one Condition in ten was assembled piecemeal without an operator (keyword and expression present)
+	DeepChains     bool // one tree in fifteen holds a chain of 9..14 single-member stacks (paths longer than any fixed small bound)
 	ZooLeaves      bool // one leaf in twelve is a value of an unusual Go type (genZooLeaf): only for checks that treat leaves as opaque
 	EqPolicies     bool // an accepting or rejecting equality closure on a random tenth of the nodes
 	WideRuns       bool // at most one node per tree additionally gets a run of 12..40 plain leaves (not counted against Budget)
@@ -195,7 +197,29 @@ func (g TreeGen) Draw(t *rapid.T) Node {
 	if len(kinds) == 0 {
 		kinds = g.Kinds
 	}
-	return st.stack(t, 1, kinds)
+	root := st.stack(t, 1, kinds)
+	if g.DeepChains && rapid.IntRange(0, 14).Draw(t, "deepchain?") == 0 {
+		// leaf <- stack <- stack ... (depth 9..14), every second link through a Condition when those are allowed
+		depth := rapid.IntRange(9, 14).Draw(t, "chaindepth")
+		cur := Node{T: "stack", Kind: "AND", Elems: []Node{LeafN(VS("bottom")), LeafN(VI(1))}}
+		for i := 0; i < depth; i++ {
+			link := cur
+			if g.Conds && g.CondExprStack && i%3 == 1 {
+				e := cur
+				link = Node{T: "cond", KW: "k" + itoa(i), Op: OpEq(), Expr: &e}
+			}
+			cur = Node{T: "stack", Kind: rapid.SampledFrom([]string{"AND", "OR", "LIST"}).Draw(t, "chainkind"), Elems: []Node{LeafN(VS("side" + itoa(i))), link}}
+			if g.Wraps && i%4 == 2 {
+				cur.Wrap = WrapAlias
+			}
+		}
+		at := rapid.IntRange(0, len(root.Elems)).Draw(t, "chainat")
+		root.Elems = append(root.Elems[:at:at], append([]Node{cur}, root.Elems[at:]...)...)
+		if root.Cap > 0 {
+			root.Cap++
+		}
+	}
+	return root
 }
 
 func (st *treeState) stackOpts(t *rapid.T, n *Node) {
@@ -342,12 +366,20 @@ func (st *treeState) cond(t *rapid.T, depth int) Node {
 		e := LeafN(v)
 		n.Expr = &e
 	}
+	if g.NoOpConds && rapid.IntRange(0, 9).Draw(t, "noop-cond") == 0 {
+		n.Op = OpDesc{K: "nil"}
+	}
 	if g.InvalidConds {
-		switch rapid.IntRange(0, 11).Draw(t, "invalid") {
+		switch rapid.IntRange(0, 15).Draw(t, "invalid") {
 		case 0:
 			n.KW = ""
 		case 1:
 			n.Expr = nil
+		case 2:
+			// a built-in comparison operator outside the six defined ones (zero included)
+			n.Op = OpDesc{K: "cmp", I: rapid.SampledFrom([]int{0, 0, 7, 99, 255}).Draw(t, "bogusop")}
+		case 3:
+			n.Op = OpDesc{K: "nil"} // assembled piecemeal, SetOperator never called
 		}
 	}
 	if g.Options {
